@@ -287,8 +287,13 @@ class Contract:
                 if nm.startswith("canary"):
                     continue
                 f = formula(f)
-                if nm.startswith("S."):
-                    P.assume(z3.Implies(g, f))
+                if nm.startswith(("S.", "E.")):
+                    # what the callee proves: all its triples hold adversarially AND (unless the clause is declared
+                    # untied) its operands carry their honest values  ==>  clause
+                    if self.is_untied(nm):
+                        P.assume(z3.Implies(g, f))
+                    else:
+                        P.assume(z3.Implies(z3.And(g, *self.site_ties(c, args, kwargs)), f))
                 else:
                     P.assume(f)
             grp = gh.Grp(self.name, key, g, counts, checked)
@@ -300,6 +305,37 @@ class Contract:
             world.use_contracts = True
         return r
 
+    # S/E clauses are proved for ARBITRARY input wires: the only facts about the adversarial assignment are the
+    # emitted triples.  A clause that needs an operand to carry its honest value says so itself (c.tied(x) in its
+    # hypothesis), so what a caller may assume at a call site is literally what was proved.  `needs_ties` lists
+    # clauses that instead get the ties of all operands as a blanket hypothesis (and, at call sites, the ties
+    # of all arguments).
+    needs_ties = ()
+
+    def is_untied(self, clause):
+        return not (clause in self.needs_ties or clause.split("[")[0] in self.needs_ties)
+
+    def site_ties(self, c, args, kwargs):
+        """tied(o) for every secret object the call can reach: its arguments and the current guard."""
+        objs = []
+        _secrets(list(args) + list(kwargs.values()), objs)
+        rt = c.rt if "pysnark.runtime" in c.w.modules else None
+        if rt is not None and rt.guard is not None:
+            objs.append(rt.guard)
+        out = []
+        seen = set()
+        for o in objs:
+            if id(o) in seen:
+                continue
+            seen.add(id(o))
+            try:
+                t = c.tied(o)
+            except Exception:
+                continue
+            if not z3.is_true(t):
+                out.append(t)
+        return out
+
     def _opnd_sig(self, c, args, kwargs):
         out = []
         for i, a in enumerate(list(args) + [kwargs[k] for k in sorted(kwargs)]):
@@ -308,6 +344,26 @@ class Contract:
             else:
                 out.append(_struct_sig(c, a))
         return tuple(out)
+
+
+def _secrets(x, out, depth=0):
+    if depth > 4 or isinstance(x, (int, str, float, bytes, type(None))):
+        return
+    if isinstance(x, (list, tuple)):
+        for y in x:
+            _secrets(y, out, depth + 1)
+    elif isinstance(x, dict):
+        for y in x.values():
+            _secrets(y, out, depth + 1)
+    else:
+        try:
+            d = object.__getattribute__(x, "__dict__")
+        except Exception:
+            return
+        if isinstance(d.get("arr"), list):
+            _secrets(d["arr"], out, depth + 1)
+        elif d.get("lc") is not None:
+            out.append(x)
 
 
 def _struct_sig(c, a):
